@@ -134,15 +134,14 @@ def oracle(policy, actions, recs, snap):
                             f'{group_cr} before any stop condition (log {log})'))
             if any(o.startswith('jx') for o in rec['obs']):
                 exited_at = idx
-                # "on stopping, all members still running are cancelled" also covers members
-                # added while join was stopping: none may be left running un-cancelled when it
-                # returns
-                crs_all = {o for r in recs[:idx + 1] for o in r['obs'] if o.startswith('cr')}
-                left = [i for i in present if i not in done and f'cr{i}' not in crs_all]
+                # "on stopping, all members still running are cancelled": nobody the group holds
+                # is still running without ever having been sent a cancellation when join returns
+                crs_now = {o for r in recs[:idx + 1] for o in r['obs'] if o.startswith('cr')}
+                left = [i for i in present if i not in done and f'cr{i}' not in crs_now]
                 if left:
-                    bad.append(('c10:returned-leaving-uncancelled-members',
+                    bad.append(('c10:join-returned-leaving-member-uncancelled',
                                 f'policy {policy}: join returned at step {idx} {a} while members '
-                                f'{left} are still running and were never cancelled'))
+                                f'{left} were still running and had never been cancelled'))
                 if stopped_at is None and not body_raised:
                     bad.append(('c10:join-returned-early',
                                 f'policy {policy}: join returned at step {idx} though no stop '
@@ -155,6 +154,7 @@ def oracle(policy, actions, recs, snap):
                                  f'every member has finished but join has not returned '
                                  f'(log {log}, consumed by callers {yl})'))
                 break
+    bad += c09.join_stuck('c10:join-stuck', policy, actions, recs, snap)[1]
     return bad
 
 
